@@ -314,6 +314,91 @@ def task_sw(ctx, cfg):
               scale_floor=1.0, validate=False)
 
 
+def task_filters(ctx, cfg):
+  """Every shipped filter / step filter, with its options (order, cutoff, per-level strengths), maps the invariant set into itself:
+  the global-mean entries (0,0) of every leaf are returned exactly as they came (so means, mean thickness and a uniform tracer
+  survive any filter stack), entries outside the truncation / at the clipped top wavenumber stay exactly zero, and the clock is
+  the identical object.  All coefficients of the filtered state are symbolic."""
+  from dinosaur import time_integration as ti, filtering, primitive_equations as pe
+  grid = grids.make_grid(cfg)
+  K = 3
+  ms = (K,) + grid.modal_shape
+  m, l = grid.modal_mesh
+  outside = (~grid.mask) | (l >= grid.total_wavenumbers - 1)
+  mean = (m == 0) & (l == 0)
+  base, zm = models.admissible_masks(grid)
+  b_ = np.broadcast_to
+  dt = 0.05
+  lev = np.array([1.0, 0.5, 0.0])[:, None, None]          # per-level (sponge-like) strengths, one level unfiltered
+  F = {
+      'exponential(a=16,o=18,c=0)': filtering.exponential_filter(grid),
+      'exponential(a=16,o=18,c=0.4)': filtering.exponential_filter(grid, 16, 18, 0.4),
+      'exponential(a=4,o=2,c=0.65)': filtering.exponential_filter(grid, 4.0, 2, 0.65),
+      'exponential(a=levels,o=3,c=0.5)': filtering.exponential_filter(grid, 8.0 * lev, 3, 0.5),
+      'diffusion(o=1)': filtering.horizontal_diffusion_filter(grid, 0.01, 1),
+      'diffusion(o=3,levels)': filtering.horizontal_diffusion_filter(grid, 1e-4 * lev, 3),
+  }
+  S = {
+      'exponential_step(c=0)': ti.exponential_step_filter(grid, dt, 0.1, 4, 0.0),
+      'exponential_step(c=0.45)': ti.exponential_step_filter(grid, dt, 0.1, 18, 0.45),
+      'exponential_step(c=0.7,o=2)': ti.exponential_step_filter(grid, dt, 0.02, 2, 0.7),
+      'horizontal_diffusion_step(o=2)': ti.horizontal_diffusion_step_filter(grid, dt, 0.2, 2),
+  }
+  L = {
+      'exponential_leapfrog_step(c=0.5)': ti.exponential_leapfrog_step_filter(grid, dt, 0.1, 6, 0.5),
+      'robert_asselin(0.05)': ti.robert_asselin_leapfrog_filter(0.05),
+  }
+  ctx.encoded(filtering.exponential_filter, filtering.horizontal_diffusion_filter, filtering._make_filter_fn, ti.exponential_step_filter,
+              ti.horizontal_diffusion_step_filter, ti.exponential_leapfrog_step_filter, ti.robert_asselin_leapfrog_filter, ti.runge_kutta_step_filter, ti.leapfrog_step_filter)
+
+  def state_vars(sp, prefix):
+    v = PolyArr.variables(sp, prefix + 'v', ms, free=b_(grid.mask & ~outside, ms))        # arbitrary means included
+    t = PolyArr.variables(sp, prefix + 'T', ms, free=b_(base, ms))
+    q = PolyArr.variables(sp, prefix + 'q', ms, free=b_(base, ms))
+    p = PolyArr.variables(sp, prefix + 'p', (1,) + grid.modal_shape, free=b_(base, (1,) + grid.modal_shape))
+    return [v, t, q, p]
+
+  def mk(v, t, q, p):
+    return pe.StateWithTime(v, v * 0.5, t, p, 1.25, {'q': q})
+
+  def leaves(s):
+    return (s.vorticity, s.divergence, s.temperature_variation, s.log_surface_pressure, s.tracers['q'])
+  shapes = [ms, ms, ms, (1,) + grid.modal_shape, ms]
+  sel_out = [b_(outside, sh) for sh in shapes]
+  sel_mean = [b_(mean, sh) for sh in shapes]
+  for name, flt in list(F.items()) + list(S.items()) + list(L.items()):
+    sp = Space(bits=14)
+    xs = state_vars(sp, '')
+    conf = dict(grid=grids.cfg_name(cfg), filter=name, K=K)
+    if name in F:
+      g = lambda *a: (leaves(flt(mk(*a))), leaves(mk(*a))); args = xs
+      clock = flt(mk(*[jnp.zeros(x.shape) for x in xs])).sim_time
+    elif name in S:
+      ys = state_vars(sp, 'u_')
+      g = lambda *a: (leaves(flt(mk(*a[4:]), mk(*a[:4]))), leaves(mk(*a[:4]))); args = xs + ys
+      clock = flt(mk(*[jnp.zeros(x.shape) for x in xs]), mk(*[jnp.zeros(x.shape) for x in xs])).sim_time
+    else:
+      ys = state_vars(sp, 'u_')
+      # leapfrog filters act on (u, (current, future)) and return (current', future'): both time levels must keep their own means
+      def g(*a, flt=flt):
+        cur, fut = flt((mk(*a[4:]), mk(*a[4:])), (mk(*a[4:]), mk(*a[:4])))
+        return leaves(fut) + leaves(cur), leaves(mk(*a[:4])) + leaves(mk(*a[4:]))
+      args = xs + ys
+      clock = None
+    nrep = 2 if name in L else 1
+    pre = harness.interpret(g, args, sp)
+    prove_close(ctx, 'f.filter_keeps_truncation_and_top_wavenumber_zero', g, args, sp, select=sel_out * nrep, exact=True, twin=False, config=conf, pre=pre)
+    if name.startswith('robert'):
+      # Robert-Asselin mixes time levels: means are preserved when both levels (and the discarded one) share them - covered by the direct leapfrog step
+      continue
+    prove_close(ctx, 'f.filter_preserves_global_means_exactly', g, args, sp, select=sel_mean * nrep, eps=1e-12, twin=False, config=conf, pre=pre, validate=False)
+    if clock is not None:
+      same = float(clock) == 1.25
+      ctx.clause('f.filter_leaves_clock_untouched', 'discharged' if same else 'failed', config=conf, queries=0)
+      if not same:
+        ctx.violation('f.filter_leaves_clock_untouched', dict(config=conf), {}, f'{name}: sim_time changed to {float(clock)}')
+
+
 def make_tasks(tier, seed):
   LS = models.level_sets(seed)
   cfg = dict(M=3, L=4, nlon=8, nlat=5)
@@ -326,6 +411,8 @@ def make_tasks(tier, seed):
     tasks.append(dict(name=f'simtime-{kind}', fn='task_sim_time_real', kw=dict(cfg=cfg, levels=LS['dy2'].tolist(), lname='dy2', kind=kind)))
   for st in ('euler', 'leapfrog'):
     tasks.append(dict(name=f'direct-step-{st}', fn='task_direct_step', kw=dict(cfg=cfg, levels=LS['dy2'].tolist(), lname='dy2', stepper=st)))
+  tasks.append(dict(name='filters-real', fn='task_filters', kw=dict(cfg=dict(M=3, L=5, nlon=8, nlat=6))))
+  tasks.append(dict(name='filters-fast-padded', fn='task_filters', kw=dict(cfg=cfgf)))
   tasks.append(dict(name='sw', fn='task_sw', kw=dict(cfg=cfg)))
   tasks.append(dict(name='sw-fast', fn='task_sw', kw=dict(cfg=cfgf)))
   if tier != 'quick':
